@@ -336,4 +336,35 @@ def r5_island_order(ctx):
     ctx.check(ok, bfe.qual + "#order", "fitness values returned in candidate order (ravel of the row-wise gufunc result)" if ok else "batch fitness values are reordered", where=bfe, node=rets[0] if rets else bfe.node)
 
 
-RULES = [r1_sibling_run_space, r2_no_shared_state_in_task, r3_one_suffix_per_run, r4_task_independence, r5_island_order]
+def r6_names_values_same_order(ctx):
+    """The dask task pairs `dimension_names` keys with the components of each parameter tuple positionally, so both must follow the enabled steps' declaration order: parameter types are recorded per enabled step in order, the short-name mapping preserves that order for every parameter (colliding names included), and run_pipelines hands exactly that mapping to the dask path."""
+    from props.C05 import dim_names_order
+
+    f = ctx.func("pyxel.observation.observation:_get_short_dimension_names_new")
+    dim_names_order(ctx, f)
+    gt = ctx.func("pyxel.observation.observation:Observation._get_parameter_types")
+    lps = [l for l in loops_in(gt.node) if isinstance(l, ast.For)]
+    ok = len(lps) == 1 and dotted(lps[0].iter) == "self.parameter_mode.enabled_steps" and isinstance(lps[0].target, ast.Name)
+    if ok:
+        v = lps[0].target.id
+        ups = [c for c in calls_in(lps[0]) if isinstance(c.func, ast.Attribute) and c.func.attr == "update" and c.args and isinstance(c.args[0], ast.Dict)]
+        sts = [st for st, t in stores(lps[0], lambda t: isinstance(t, ast.Subscript))]
+        ok = (len(ups) == 1 and norm(ups[0].args[0].keys[0]) == f"{v}.key") or (len(sts) == 1 and norm(sts[0].targets[0].slice) == f"{v}.key")
+    ctx.check(ok, gt.qual, "one entry per enabled step, inserted in declaration order" if ok else "parameter types are not recorded per enabled step in declaration order", where=gt, node=lps[0] if lps else gt.node)
+    rp = ctx.func("pyxel.observation.observation:Observation.run_pipelines")
+    dn = local_defs(rp, "dim_names")
+    ok = len(dn) == 1 and norm(expand(rp, dn[0][1])) == "_get_short_dimension_names_new(self._get_parameter_types())"
+    cs = stmt_calls(rp, ctx.R, {f"{OD}:run_pipelines_with_dask"})
+    ok = ok and len(cs) == 1 and dotted(kw(cs[0], "dim_names")) == "dim_names" and dotted(kw(cs[0], "parameter_mode")) == "self.parameter_mode"
+    ctx.check(ok, rp.qual + "#dim-names", "the dask path receives the ordered name mapping of the same parameter mode" if ok else "the dask path does not receive _get_short_dimension_names_new(types) of the same parameter mode", where=rp, node=cs[0] if cs else rp.node)
+    d = ctx.func(f"{OD}:run_pipelines_with_dask")
+    cp = [c for c in calls_in(d.node) if isinstance(c.func, ast.Attribute) and c.func.attr == "create_params"]
+    ok = len(cp) == 1 and dotted(cp[0].func.value) == "parameter_mode" and dotted(kw(cp[0], "dim_names")) == "dim_names"
+    ctx.check(ok, d.qual + "#create-params", "values come from parameter_mode.create_params(dim_names=dim_names)" if ok else "parameter values are not produced by create_params of the same mode/mapping", where=d, node=cp[0] if cp else d.node)
+    au = [c for c in calls_in(d.node) if call_name(c).endswith("apply_ufunc")]
+    kwd = kw(au[0], "kwargs") if au else None
+    ok = isinstance(kwd, ast.Dict) and any(isinstance(k, ast.Constant) and k.value == "dimension_names" and dotted(v) == "dim_names" for k, v in zip(kwd.keys, kwd.values))
+    ctx.check(ok, d.qual + "#task-names", "the tasks receive that same mapping as dimension_names" if ok else "tasks do not receive the ordered name mapping", where=d, node=au[0] if au else d.node)
+
+
+RULES = [r6_names_values_same_order, r1_sibling_run_space, r2_no_shared_state_in_task, r3_one_suffix_per_run, r4_task_independence, r5_island_order]
